@@ -28,7 +28,7 @@ ASSUMPTIONS = ["forcing.module is always given (the property does not say what a
                "the release file has no header line (version 1 always passes the column names)"]
 TIERS = {"quick": dict(runs=220, budget_s=50, shrink=80),
          "thorough": dict(runs=15000, budget_s=900, shrink=150)}
-REQUIRED_PROBES = ["v1", "toml", "grid_omitted", "wildcard", "sections_omitted", "diffusion", "continuous"]
+REQUIRED_PROBES = ["v1", "toml", "grid_omitted", "wildcard", "sections_omitted", "diffusion", "continuous", "leftover_frequency"]
 
 PROFILE = gen.profile(
     nsteps=(2, 24), p_reversed=0.0, p_land=0.4, p_subgrid=0.35, N=(1, 4), p_vinfo=0.0, cfl=(0.05, 0.6),
@@ -54,6 +54,10 @@ def generate(seed: int, tier: str, idx: int) -> dict:
         sc["release"].pop("mult_column")
         sc["release"].pop("col_order", None)
     sc["plan"] = {"omit_ibm": s.chance(0.5)}
+    if not sc["release"].get("continuous") and s.chance(0.5):
+        # a discrete release whose configuration still carries a release frequency (ignored: not continuous)
+        sc["plan"]["leftover_freq_steps"] = s.randint(1, 4)
+        sc["plan"]["v1_release_type"] = s.pick(["discrete", None])
     return sc
 
 
@@ -94,6 +98,10 @@ def v1_config(sc, d: Path, cfg2: dict) -> dict:
     if sc["release"].get("continuous"):
         pr["release_type"] = "continuous"
         pr["release_frequency"] = cfg2["release"]["release_frequency"]
+    elif "release_frequency" in cfg2["release"]:
+        pr["release_frequency"] = cfg2["release"]["release_frequency"]
+        if PLAN.get("v1_release_type"):
+            pr["release_type"] = PLAN["v1_release_type"]
     c["particle_release"] = pr
     c["numerics"] = {"dt": cfg2["time"]["dt"], "advection": cfg2["tracker"].get("advection", "EF"),
                      "diffusion": cfg2["tracker"].get("diffusion", 0.0)}
@@ -114,6 +122,11 @@ def run_variant(res: Result, sc, label: str, edit=None, spelling="yaml2", v1=Fal
     try:
         world.write_world(sc, d)
         cfg = world.build_config(sc, d, shims=False)
+        lf = PLAN.get("leftover_freq_steps")
+        if lf:
+            cfg["release"]["release_frequency"] = int(lf) * truth.dt_s(sc)
+            if PLAN.get("explicit_false"):
+                cfg["release"]["continuous"] = False
         if edit is not None:
             cfg = edit(cfg, d) or cfg
         if v1:
@@ -163,10 +176,16 @@ def differ(a, b) -> str | None:
     return None
 
 
+PLAN: dict = {}
+
+
 def execute(sc) -> Result:
     res = Result()
     sc = copy.deepcopy(sc)
     plan = sc.pop("plan", {})
+    PLAN.clear()
+    PLAN.update(plan)
+    PLAN["explicit_false"] = bool(plan.get("leftover_freq_steps", 0) % 2)
     if plan.get("omit_ibm"):
         sc["ibm"] = {}
         for v in ("age", "weight"):
@@ -269,5 +288,7 @@ def execute(sc) -> Result:
         res.probes["diffusion"] += 1
     if sc["release"].get("continuous"):
         res.probes["continuous"] += 1
+    if plan.get("leftover_freq_steps"):
+        res.probes["leftover_frequency"] += 1
     res.nontrivial = ran >= 3 and nonempty >= 2
     return res
